@@ -20,10 +20,10 @@ def sh(cmd, cwd=None, env=None, timeout=600):
     return r.returncode, (r.stdout + r.stderr)[-1500:]
 
 
-def main(ids):
+def main(ids, prefix="seed", tag=""):
     for pid in ids:
-        wt = f"/tmp/seed-{pid}"
-        out = f"/tmp/seed-{pid}-out"
+        wt = f"/tmp/{prefix}-{pid}"
+        out = f"/tmp/{prefix}-{pid}-out"
         if not os.path.exists(os.path.join(out, "meta.json")):
             print(pid, "no meta.json yet")
             continue
@@ -35,7 +35,7 @@ def main(ids):
         for X in ("A", "B"):
             patch = os.path.join(out, f"patch_{X}.diff")
             demo = os.path.join(out, f"demo_{X}.py")
-            dest = f"/verif/seeded/{pid}-{X}"
+            dest = f"/verif/seeded/{pid}-{tag}{X}"
             if os.path.exists(dest) or not (os.path.exists(patch) and os.path.exists(demo)):
                 continue
             sh(["git", "checkout", "--", "."], cwd=wt)
@@ -62,9 +62,14 @@ def main(ids):
                 os.makedirs(dest, exist_ok=True)
                 shutil.copy(patch, os.path.join(dest, "patch.diff"))
                 shutil.copy(demo, os.path.join(dest, "demo.py"))
-                rec["how_to_run"] = f"git -C /repo apply /verif/seeded/{pid}-{X}/patch.diff; run /verif checks; git -C /repo checkout -- .   (demo.py expects a worktree at /tmp/seed-{pid})"
+                rec["how_to_run"] = f"git -C /repo apply /verif/seeded/{pid}-{tag}{X}/patch.diff; run /verif checks; git -C /repo checkout -- .   (demo.py expects a worktree at /tmp/{prefix}-{pid})"
                 json.dump(rec, open(os.path.join(dest, "meta.json"), "w"), indent=1)
 
 
 if __name__ == "__main__":
-    main(sys.argv[1:] or [f"C{i:02d}" for i in range(1, 21)])
+    args = sys.argv[1:]
+    prefix, tag = "seed", ""
+    if args and args[0] == "--round2":
+        prefix, tag = "seed2", "2"
+        args = args[1:]
+    main(args or [f"C{i:02d}" for i in range(1, 21)], prefix, tag)
